@@ -97,6 +97,9 @@ struct Session {
     std::map<long, Ent> retained;            // handles obtained in the current session
     std::vector<long> retainedOrder;
     std::map<long, Ent> fresh;               // handles from the last walk (fresh look-ups)
+    std::map<long, Ent> second;              // a second handle of every entity created in the session (looked up through its parent
+                                             // right after the creation): calls alternate between the two handles of an entity
+    unsigned long tick = 0;
     std::map<std::string, long> eidOfId;     // UUID -> model eid (bound at creation, survives reopen)
     std::map<long, std::string> idOf;
     std::map<long, long> createdAt;
@@ -146,7 +149,11 @@ void ensureForeign(Ctx &c, Session &s) {
 json observe(Session &s);
 Ent &handleOf(Session &s, long eid) {
     auto it = s.retained.find(eid);
-    if (it != s.retained.end()) return it->second;
+    if (it != s.retained.end()) {
+        auto st = s.second.find(eid);
+        if (st != s.second.end() && (s.tick++ % 2)) return st->second;     // whichever of its two handles the client has at hand
+        return it->second;
+    }
     auto jt = s.fresh.find(eid);
     if (jt != s.fresh.end()) return jt->second;
     // not obtained in this session: look it up afresh (walk from the root)
@@ -604,6 +611,8 @@ json observe(Session &s) {
             if (valid && fr != s.fresh.end()) {
                 json a = viewOf(e), b = viewOf(fr->second);
                 if (a != b) o["issues"].push_back("a retained handle of eid " + std::to_string(eid) + " shows a different state than a fresh look-up: " + firstDiff(b, a));
+                auto st = s.second.find(eid);
+                if (st != s.second.end()) { json c2 = viewOf(st->second); if (c2 != b) o["issues"].push_back("the second handle of eid " + std::to_string(eid) + " shows a different state than a fresh look-up: " + firstDiff(b, c2)); }
             }
         } else {
             // after close: every earlier handle must fail with an exception (getter and mutator)
@@ -663,7 +672,28 @@ void doCreate(Ctx &c, Session &s, const json &g, long neweid, const std::string 
         Ent &pe = handleOf(s, p);
         made = pe.kind == "tag" ? mk(pe.tag.createFeature(d, ltOf(v == 1 ? 0 : 2))) : mk(pe.mtag.createFeature(d, ltOf(v == 1 ? 0 : 2)));
     } else throw std::runtime_error("harness: unknown slot " + slot);
-    if (neweid > 0) { bindNew(s, neweid, made); addBallast(s, made); }
+    if (neweid > 0) {
+        bindNew(s, neweid, made);
+        // the second handle: the same entity looked up by id through its parent
+        try {
+            std::string id = made.id(); Ent two;
+            if (slot == "blocks") two = mk(s.f.getBlock(id));
+            else if (slot == "sections") two = (p == 0) ? mk(s.f.getSection(id)) : mk(s.retained.count(p) ? s.retained[p].section.getSection(id) : handleOf(s, p).section.getSection(id));
+            else {
+                Ent &pe = s.retained.count(p) ? s.retained[p] : handleOf(s, p);
+                if (slot == "props") two = mk(pe.section.getProperty(id));
+                else if (slot == "sources") two = pe.kind == "block" ? mk(pe.block.getSource(id)) : mk(pe.source.getSource(id));
+                else if (slot == "arrays") two = mk(pe.block.getDataArray(id));
+                else if (slot == "frames") two = mk(pe.block.getDataFrame(id));
+                else if (slot == "tags") two = mk(pe.block.getTag(id));
+                else if (slot == "mtags") two = mk(pe.block.getMultiTag(id));
+                else if (slot == "groups") two = mk(pe.block.getGroup(id));
+                else if (slot == "features") two = pe.kind == "tag" ? mk(pe.tag.getFeature(id)) : mk(pe.mtag.getFeature(id));
+            }
+            if (!two.kind.empty()) s.second[neweid] = two;
+        } catch (...) { /* no second handle: the look-up itself is judged by the observer */ }
+        addBallast(s, made);
+    }
 }
 
 bool doDelete(Session &s, const json &g) {
@@ -917,7 +947,7 @@ void openSession(Session &s, const std::string &m) {
     s.roHash = (m == "ro") ? fileHash(s.path) : "";
     s.f = nix::File::open(s.path, modeOf(m));
     s.open = true; s.mode = (m == "ro") ? "ro" : "rw";
-    s.retained.clear(); s.retainedOrder.clear(); s.fresh.clear(); s.keptDims.clear();
+    s.retained.clear(); s.retainedOrder.clear(); s.fresh.clear(); s.keptDims.clear(); s.second.clear();
 }
 
 // executes one step; returns the outcome class
@@ -1060,6 +1090,10 @@ json handleInner(Ctx &c, const json &rec) {
         for (auto &st : all) { std::string a = st["a"]; if (a == "Close" || a == "Open" || a == "Crash") reopens = true; }
         if (reopens) s.K = 0;
     }
+    // reading through the kept handles after every call is done on every other line only (by content hash): a read accessor with a
+    // side effect can make a fault heal under observation, so half of the histories run unobserved until the judged step
+    bool touchThisLine;
+    { std::string key = rec["pre"].dump() + rec["step"].dump(); unsigned long h = 1469598103934665603UL; for (unsigned char ch : key) { h ^= ch; h *= 1099511628211UL; } touchThisLine = (h / 6) % 2 == 0; }
     Ent fileEnt; fileEnt.kind = "file";
     // Init: an open read-write session on a new, empty file
     s.f = nix::File::open(s.path, nix::FileMode::Overwrite);
@@ -1101,7 +1135,7 @@ json handleInner(Ctx &c, const json &rec) {
             std::ifstream in(side);
             json st; in >> st;
             s.fromJson(st);
-            s.open = false; s.retained.clear(); s.retainedOrder.clear(); s.fresh.clear(); s.f = nix::File();
+            s.open = false; s.retained.clear(); s.retainedOrder.clear(); s.fresh.clear(); s.second.clear(); s.keptDims.clear(); s.f = nix::File();
             if (ci == all.size() - 1) {
                 // the crash is the judged step: the model's post state is a closed session
                 json exp = normalise(rec["post"]);
@@ -1120,8 +1154,9 @@ json handleInner(Ctx &c, const json &rec) {
                 return json{{"v", "unjudgeable"}, {"what", "prefix step outcome differs"}, {"step", all[i]}, {"observed", r}};
             s.fresh.clear();              // fresh handles are looked up again on demand
             // the client reads through the handles it kept, after every call (whatever a handle remembers must stay right)
-            if (c.opts.value("touch_retained", false) && s.open)
-                for (long eid : s.retainedOrder) { try { if (s.retained[eid].valid()) (void) viewOf(s.retained[eid]); } catch (...) {} }
+            if (c.opts.value("touch_retained", false) && touchThisLine && s.open)
+                for (long eid : s.retainedOrder) { try { if (s.retained[eid].valid()) (void) viewOf(s.retained[eid]); } catch (...) {}
+                                                   auto st = s.second.find(eid); if (st != s.second.end()) { try { if (st->second.valid()) (void) viewOf(st->second); } catch (...) {} } }
             if (s.open) for (auto &kd : s.keptDims) for (auto &q : kd.second) (void) keptDimView(q);
         }
         const json &st = all[i];
